@@ -7,7 +7,7 @@
 /// Current status: DR7 (FSK) is unimplemented
 use super::*;
 
-const MAX_EIRP: u8 = 16;
+const MAX_EIRP: u8 = 12;
 
 pub(crate) type EU433 = DynamicChannelPlan<EU433Region>;
 
